@@ -26,7 +26,14 @@ func runC22(c *core.Ctx) {
 	modF := flRead + ".modified"
 
 	c.Clause("C22.lock", func() {
-		res := core.RunLockset(p, flushableLockSpec())
+		spec := flushableLockSpec()
+		res := core.RunLockset(p, spec)
+		// methods of unexported adapter types whose values exist only as arguments of calls made under the
+		// lock are entered with what is held at those calls (c22_adapter.go); second pass with that entry
+		if held := c22AdapterHeld(p, "kvdb/flushable", res); len(held) > 0 {
+			spec.AssumeHeld = held
+			res = core.RunLockset(p, spec)
+		}
 		// the pool is C25/C28's subject: its methods, and the plain helper functions that only the pool calls
 		pool := c22PoolFuncs(res)
 		reportLockset(c, res, c28Exceptions, func(f *core.FuncInfo) bool { return !pool[f] })
@@ -114,30 +121,55 @@ func runC22(c *core.Ctx) {
 		// batch entries: kv.v == nil means delete in Write and Replay
 		for _, name := range []string{"kvdb/flushable.cacheBatch.Write", "kvdb/flushable.cacheBatch.Replay"} {
 			f := c.Fn(name)
-			isNilV := func(want bool) func(core.Fact) bool {
-				return func(ft core.Fact) bool {
-					x, isNil, ok := c22NilCmp(f.Info(), ft)
-					return ok && fieldNameOf(f, x) == "kvdb/flushable.kv.v" && isNil == want
+			// the entry's value field compared with nil, written in place or in a boolean helper of the
+			// entry (decided from the helper's returns: c25_view.go)
+			isNilV := func(g *core.FuncInfo, want bool) func(core.Fact) bool {
+				return c25Lift(c25View{G: g, Role: func(ast.Expr) string { return "" }}, func(v c25View, ft core.Fact) bool {
+					x, isNil, ok := c22NilCmp(v.G.Info(), ft)
+					return ok && fieldNameOf(v.G, x) == "kvdb/flushable.kv.v" && isNil == want
+				}, 2)
+			}
+			// the places where an entry is applied: the overlay's own delete/put, or Delete/Put of a writer
+			// (the replay loop may be shared by Write and Replay and be given the overlay as a writer), in
+			// the function itself or in a function it calls
+			ok, nDel, nPut := true, 0, 0
+			for _, g := range c22Hosts(f, 2) {
+				if g != f && (g.Name == flT+".delete" || g.Name == flT+".put") {
+					continue
+				}
+				for _, d := range g.CallsTo(flT+".delete", kvDelete) {
+					nDel++
+					if gd, _ := g.GuardedBy(d.Pt, isNilV(g, true)); !gd {
+						ok = false
+					}
+				}
+				for _, pc := range g.CallsTo(flT+".put", kvPut) {
+					nPut++
+					if gd, _ := g.GuardedBy(pc.Pt, isNilV(g, false)); !gd {
+						ok = false
+					}
 				}
 			}
-			var dels, puts []*core.CallSite
-			if name == "kvdb/flushable.cacheBatch.Write" {
-				dels, puts = f.CallsTo(flT+".delete"), f.CallsTo(flT+".put")
-			} else {
-				dels, puts = f.CallsTo(kvDelete), f.CallsTo(kvPut)
-			}
-			ok := len(dels) >= 1 && len(puts) >= 1
-			for _, d := range dels {
-				if g, _ := f.GuardedBy(d.Pt, isNilV(true)); !g {
-					ok = false
-				}
-			}
-			for _, pc := range puts {
-				if g, _ := f.GuardedBy(pc.Pt, isNilV(false)); !g {
-					ok = false
-				}
-			}
+			ok = ok && nDel >= 1 && nPut >= 1
 			c.Check(ok, short(name)+"|nil value = delete", "T16c tombstone agreement", f.Pos(), "delete on the v == nil edge, put on the v != nil edge", "batch entries are not split into delete (nil value) and put (non-nil value)")
+		}
+		// and the other side of that agreement: the entry recorded by the batch's Put has a nil value only
+		// when the caller's value is nil — an empty non-nil value must not turn into the delete marker
+		// (abstract nil-ness of the expression stored in the entry's value field: c22_batch.go)
+		bput := c.Fn("kvdb/flushable.cacheBatch.Put")
+		if pv := bput.Param(1); pv != nil && len(assignsToVar(bput, pv)) == 0 {
+			vals := c22EntryValues(bput, c22NilEnv{pv: c22Keeps}, 2, map[*core.FuncInfo]bool{})
+			c.ExpectAtLeast("places where cacheBatch.Put gives a batch entry its value", len(vals), 1)
+			for _, ev := range vals {
+				switch ev.Class {
+				case c22Maybe:
+					c.Fail("cacheBatch.Put|non-nil value stays non-nil", "T16c tombstone agreement (abstract nil-ness)", ev.Node.Pos(), "the batch entry's value is made by appending the value to a nil slice: for an empty non-nil value the result is nil, which Write/Replay treat as a deletion (a Put of an empty value deletes the key); in "+short(ev.Host.Name))
+				case c22Nil:
+					c.Fail("cacheBatch.Put|non-nil value stays non-nil", "T16c tombstone agreement (abstract nil-ness)", ev.Node.Pos(), "the batch entry recorded by Put always has a nil value, which Write/Replay treat as a deletion; in "+short(ev.Host.Name))
+				case c22Keeps, c22Fresh:
+					c.Pass("cacheBatch.Put|non-nil value stays non-nil", "T16c tombstone agreement (abstract nil-ness)", "the entry's value is nil only if the caller's value is nil ("+ev.Class+"; "+short(ev.Host.Name)+")")
+				}
+			}
 		}
 	})
 
@@ -246,36 +278,30 @@ func runC22(c *core.Ctx) {
 		f := c.Fn(flT + ".flush")
 		// the loop driven by Next() of an iterator over the overlay tree (the iterator may be made in the
 		// loop's init clause or before the loop)
-		isNext := func(e ast.Expr) *ast.CallExpr {
-			if e == nil {
-				return nil
+		// (the loop may also stand in a function flush calls on the same store or with the overlay tree as
+		// an argument: c22_loop.go; h is the function that contains it)
+		fl := c22FindFlushLoop(f)
+		c.Need(fl != nil, "flush iterates the overlay with a for loop")
+		h, loop := fl.Host, fl.Loop
+		c.Check(fl.Overlay, "flush walks the whole overlay", "loop shape", loop.Pos(), "the loop advances an iterator of the overlay tree with Next() until it is exhausted", "flush does not iterate modified.Iterator() with Next()")
+		done, complete := loopDone(h, loop)
+		c.Need(done != nil, "exit of the overlay loop")
+		if h != f {
+			// the callee reports success (or simply returns) only behind the loop's exit
+			rets := h.ReturnPoints()
+			if c25ReturnsError(h) {
+				rets = c25SucceedingReturns(h)
 			}
-			return isCallTo(f, e, rbtP+"Iterator.Next")
-		}
-		var loop *ast.ForStmt
-		f.InspectOwn(func(n ast.Node) bool {
-			if fs, ok := n.(*ast.ForStmt); ok && (loop == nil || (isNext(loop.Cond) == nil && isNext(fs.Cond) != nil)) {
-				loop = fs
-			}
-			return true
-		})
-		c.Need(loop != nil, "flush iterates the overlay with a for loop")
-		okIt := false
-		if next := isNext(loop.Cond); next != nil {
-			if sel, ok := ast.Unparen(next.Fun).(*ast.SelectorExpr); ok {
-				if mk := isCallTo(f, sel.X, rbtP+"Tree.Iterator"); mk != nil {
-					if msel, ok := ast.Unparen(mk.Fun).(*ast.SelectorExpr); ok && fieldNameOf(f, msel.X) == modF {
-						okIt = true
-					}
+			for _, rp := range rets {
+				if o, _ := mustPassBlockBefore(h, done, rp); !o {
+					complete = false
 				}
 			}
 		}
-		c.Check(okIt, "flush walks the whole overlay", "loop shape", loop.Pos(), "the loop advances an iterator of the overlay tree with Next() until it is exhausted", "flush does not iterate modified.Iterator() with Next()")
-		done, complete := loopDone(f, loop)
 		c.Check(complete, "flush loop has no early exit except returns", "T2 (loop)", loop.Pos(), "the loop is left only when the iterator is exhausted (or by returning an error)", "the overlay loop can be left early by break/goto")
 		// each iteration puts or deletes into the batch (directly or through a helper that always does),
 		// split on the tombstone
-		stages := c22Stages(f)
+		stages := c22Stages(h)
 		nPut, nDel := 0, 0
 		for _, s := range stages {
 			if s.IsDel {
@@ -286,9 +312,10 @@ func runC22(c *core.Ctx) {
 		}
 		c.Need(nPut >= 1 && nDel >= 1, "flush stages entries with batch.Put and batch.Delete (directly or in a helper called with the entry's value)")
 		isStage := func(cs *core.CallSite) bool { return cs.Name == kvPut || cs.Name == kvDelete }
-		head, _ := f.LoopOf(loop)
+		head, _ := h.LoopOf(loop)
+		c.Need(head != nil && len(head.Succs) > 0, "head of the overlay loop")
 		bodyEntry := core.Point{B: head.Succs[0], I: 0}
-		_, skip := core.PathQuery{F: f, From: bodyEntry, Target: func(pt core.Point) bool { return pt.B == head }, Avoid: core.PointSet(f.SitesMust(isStage, 2)...)}.Find()
+		_, skip := core.PathQuery{F: h, From: bodyEntry, Target: func(pt core.Point) bool { return pt.B == head }, Avoid: core.PointSet(h.SitesMust(isStage, 2)...)}.Find()
 		c.Check(!skip, "every overlay entry reaches the batch", "T2 (loop)", loop.Pos(), "no path through the body reaches the next entry without batch.Put or batch.Delete", "an overlay entry can be skipped")
 		okSplit, whySplit := true, ""
 		for _, s := range stages {
@@ -305,7 +332,7 @@ func runC22(c *core.Ctx) {
 		clrPos := posOf(clr[0])
 		ok1 := true
 		for _, pt := range clr {
-			if o, _ := mustPassBlockBefore(f, done, pt); !o {
+			if !fl.After(f, pt) {
 				ok1 = false
 			}
 		}
@@ -317,7 +344,18 @@ func runC22(c *core.Ctx) {
 				final = append(final, pt)
 			}
 		}
-		_, noWrite := core.PathQuery{F: f, From: blockEntry(done), Avoid: core.PointSet(final...), TargetExit: true}.Find()
+		var noWrite bool
+		if fl.Call == nil {
+			_, noWrite = core.PathQuery{F: f, From: blockEntry(done), Avoid: core.PointSet(final...), TargetExit: true}.Find()
+		} else {
+			// from the return of the call that ran the loop, leaving aside the edges on which that call's
+			// error is non-nil (flush gives up there, the overlay is kept)
+			q := core.PathQuery{F: f, From: fl.Call.Pt, FromAfter: true, Avoid: core.PointSet(final...), TargetExit: true}
+			if ev := errVarOfCall(f, fl.Call.Call); ev != nil {
+				q.AvoidEdge = f.GuardEdges(varNilFact(f, ev, false))
+			}
+			_, noWrite = q.Find()
+		}
 		c.Check(!noWrite && len(final) > 0, "final batch write", "T3 PostDominates", clrPos, "every path from the end of the overlay loop to return passes the final batch.Write()", "flush can return success without writing the last batch")
 		// every point that (may) clear the overlay is paired with a point that certainly zeroes the size
 		zero := c22Sites(f, c22ZeroIn, 2, true)
